@@ -118,6 +118,9 @@ class AbstractAst:
         if self.spec is None:
             raise RTAMTException('STL specification if empty')
 
+        # the formulas of an earlier parse() are replaced, not kept
+        self.specs = []
+
         #TODO How to handle sub-formulas?
         entire_spec = self.modular_spec + self.spec
         
